@@ -34,6 +34,9 @@ def run(ctx):
     ok, log = ctx.extract("closeorder", ["lean/KafkaVerif/Gen/CodecClose.lean"])
     if not ok:
         broken.append({"kind": "obligation", "name": "translator go/extract closeorder", "detail": log[-1500:]})
+    ok, log = ctx.extract("xerialfacts", ["lean/KafkaVerif/Gen/XerialFacts.lean"])
+    if not ok:
+        broken.append({"kind": "obligation", "name": "translator go/extract xerialfacts", "detail": log[-1500:]})
     ok, log = ctx.extract("resetfields", ["lean/KafkaVerif/Gen/XerialReset.lean"])
     if not ok:
         broken.append({"kind": "obligation", "name": "translator go/extract resetfields", "detail": log[-1500:]})
